@@ -142,15 +142,22 @@ def check_bp_map(case):
     k = 0
     deferred = None  # a lost-state-name failure does not stop the sweep: optimality failures are reported first
 
-    def one(Q, ev, vlist):
+    def one(Q, ev, vlist, warm=None):
         post = J.posterior(Q, ev, _weights(vlist))
         if post is None:
             return None
         fn = "BP.map_query:virtual" if vlist else "BP.map_query"
         desc = f"BeliefPropagation.map_query({Q}, evidence={ev}" + (f", virtual={[(v, [str(x) for x in ws]) for v, ws in vlist]})" if vlist else ")")
         try:
-            res = BeliefPropagation(model).map_query(list(Q), evidence=dict(ev) or None, show_progress=False,
-                                                     virtual_evidence=M.make_virtual(spec, vlist) if vlist else None)
+            eng = BeliefPropagation(model)
+            if warm == "max_calibrate":   # an engine whose clique beliefs come from an earlier max-calibration / sum query
+                eng.max_calibrate()
+                fn, desc = fn + ":after-max_calibrate", "after max_calibrate(): " + desc
+            elif warm == "query":
+                eng.query([nodes[k % len(nodes)]], show_progress=False)
+                fn, desc = fn + ":after-query", f"after query([{nodes[k % len(nodes)]!r}]): " + desc
+            res = eng.map_query(list(Q), evidence=dict(ev) or None, show_progress=False,
+                                virtual_evidence=M.make_virtual(spec, vlist) if vlist else None)
         except KeyError as e:
             if any(M._same_name(e.args[0], s) for s in ev.values()) if e.args else False:
                 return {"key": "BP.map_query:state-name:evidence-state-unknown", "what": f"{desc}: KeyError {e} for a valid state name given as evidence"}
@@ -180,11 +187,12 @@ def check_bp_map(case):
         for ev in M.evidence_assignments(J, E, level, rng):
             k += 1
             for vlist in ([None, vlists[k % len(vlists)]] if k % 3 == 0 else [None]):
-                f = one(Q, ev, vlist)
-                if f and ":state-name" in f["key"]:
-                    deferred = deferred or f
-                elif f:
-                    return f
+                for warm in ((None, ("max_calibrate", "query")[(k // 2) % 2]) if (vlist is None and k % 2 == 0) else (None,)):
+                    f = one(Q, ev, vlist, warm)
+                    if f and ":state-name" in f["key"]:
+                        deferred = deferred or f
+                    elif f:
+                        return f
     return deferred
 
 
@@ -387,7 +395,8 @@ def groups(tier):
                                             "one virtual-evidence list (<= 2 variables) per (query, evidence assignment); fresh engine per query"),
         Group("bp_map", gen_connected, check_bp_map, M.nontrivial, seed_fanout=fan, engine="E3",
               bound=common + "; " + pairs + "; CONNECTED models only (BeliefPropagation refuses models whose clique tree is disconnected: "
-                                            "'No sepset found' at construction); virtual evidence on every third query; fresh engine per query"),
+                                            "'No sepset found' at construction); virtual evidence on every third query; fresh engine per query, and for every second query additionally an engine "
+                                            "warmed by max_calibrate() or by a sum-product query"),
         Group("markov_map", gen_models, check_markov_map, M.nontrivial, seed_fanout=fan, engine="E3",
               bound=common + "; VariableElimination.map_query on the Markov network of family factors (moral graph, shuffled factor axes) of the same models; "
                              "orders default / None / explicit permutations; hard evidence only"),
